@@ -1440,6 +1440,9 @@ pub enum RegOrProbe {
     Probe(crate::probe::ProbeCase),
     /// removal by dropping the owning iterator instance while deliveries keep arriving
     Iter(crate::iter::IterCase),
+    /// what a self-pipe action captured (its descriptor) while the reader has hung up: it must
+    /// stay the action's until the removal (forkprobe of C13, real signals)
+    Pipe(crate::c13::C13Case),
 }
 
 pub fn run_any(c: &RegOrProbe) -> CaseReport {
@@ -1447,10 +1450,21 @@ pub fn run_any(c: &RegOrProbe) -> CaseReport {
         RegOrProbe::Reg(c) => run_case(c),
         RegOrProbe::Probe(c) => crate::probe::run_case(c),
         RegOrProbe::Iter(c) => crate::iter::run_case(c),
+        RegOrProbe::Pipe(c) => {
+            let mut r = crate::c13::run_probe(c);
+            r.nontrivial_by.push(("C01".into(), c.reader_gone));
+            r
+        }
     }
 }
 
 fn replay(v: &Value) -> CaseReport {
+    if let Some(a) = v.get("inflight_anchor").and_then(|a| a.as_array()) {
+        return inflight_anchor(a[0].as_u64().unwrap_or(0) as u8, a[1].as_u64().unwrap_or(600));
+    }
+    if let Some(a) = v.get("anchor").and_then(|a| a.as_array()) {
+        return anchor_case(a[0].as_bool().unwrap_or(false), a[1].as_bool().unwrap_or(false), a[2].as_i64().unwrap_or(10) as c_int, 3);
+    }
     if let Ok(c) = serde_json::from_value::<RegOrProbe>(v.clone()) {
         return run_any(&c);
     }
@@ -1470,6 +1484,15 @@ fn w01(def: &PropDef, args: &WorkerArgs) -> WorkerReport {
         3 => strategy(Focus::C01).prop_map(RegOrProbe::Reg),
         3 => crate::probe::strategy().prop_map(RegOrProbe::Probe),
         1 => crate::iter::strategy(true).prop_map(RegOrProbe::Iter),
+        1 => crate::c13::strategy().prop_map(|mut c| {
+            c.reader_gone = true;
+            c.kind %= 4;
+            // small bursts: this family is about who releases the descriptor, not about capacity
+            for b in c.bursts.iter_mut() {
+                *b = 1 + *b % 7;
+            }
+            RegOrProbe::Pipe(c)
+        }),
     ]
     .boxed();
     generic_worker(def, args, strat, &run_any)
@@ -1498,13 +1521,13 @@ const ASSUME: &[&str] = &[
 pub static C01: PropDef = PropDef {
     id: "C01",
     prefixes: &["C01/", "crash/sig=11", "crash/sig=7"],
-    rule: "three proptest-generated families: (a) registry programs of 2-5 threads x <=5 ops over {register, unregister(own/shared id), unregister_signal, deliver} on 3 signals + nested deliveries at generated points x byte schedule, one forked child per case; (b) the bare half-lock in-process (stores/updates, read sections with body points, nested and isolated reads, weak-memory choices on); (c) iterator instances dropped together with all handles while deliveries keep arriving (no action of the dropped instance may run afterwards); oracle: quiescence of removed actions, capture released exactly once by the removing thread inside the removing call at handler depth 0, snapshot epochs (no free while a read section is open, no section on a freed snapshot), no action sees a released capture. Non-trivial = a read section overlapped a removal's publish..return window or a delivery nested inside a removal; distinct = hash of realised call/return/delivery/publish interleaving",
+    rule: "three proptest-generated families: (a) registry programs of 2-5 threads x <=5 ops over {register, unregister(own/shared id), unregister_signal, deliver} on 3 signals + nested deliveries at generated points x byte schedule, one forked child per case; (b) the bare half-lock in-process (stores/updates, read sections with body points, nested and isolated reads, weak-memory choices on); (c) iterator instances dropped together with all handles while deliveries keep arriving (no action of the dropped instance may run afterwards); oracle: quiescence of removed actions, capture released exactly once by the removing thread inside the removing call at handler depth 0, snapshot epochs (no free while a read section is open, no section on a freed snapshot), no action sees a released capture. Non-trivial = a read section overlapped a removal's publish..return window or a delivery nested inside a removal; distinct = hash of realised call/return/delivery/publish interleaving. Real in-flight anchors (worker 0): a kernel-delivered signal blocked inside an action for 0.6 s (thorough 3 s) while another thread removes an action by id / by signal / the running action itself - the removal must not return before the delivery is over",
     assumptions: ASSUME,
     cases: (3000, 60_000),
     shrink_iters: 600,
     worker: w01,
     replay,
-    extra: None,
+    extra: Some(inflight_extra),
 };
 
 pub static C02: PropDef = PropDef {
@@ -1516,7 +1539,7 @@ pub static C02: PropDef = PropDef {
     shrink_iters: 600,
     worker: w02,
     replay,
-    extra: None,
+    extra: Some(inflight_extra),
 };
 
 // ---- C04 real-signal anchors: the kernel, not the simulation, calls the library's handler
@@ -1534,7 +1557,14 @@ extern "C" fn anchor_prior1(sig: c_int) {
     ANCHOR_PRIOR_SIG.store(sig, Ordering::SeqCst);
 }
 
+static ANCHOR_PRIOR_VAL: std::sync::atomic::AtomicI64 = std::sync::atomic::AtomicI64::new(0);
+extern "C" {
+    fn sigqueue(pid: libc::pid_t, sig: c_int, value: libc::sigval) -> c_int;
+}
+
 extern "C" fn anchor_prior3(sig: c_int, info: *mut siginfo_t, _ctx: *mut c_void) {
+    // the payload of a queued signal: si_value at offset 24 (x86-64 / aarch64 Linux layout)
+    ANCHOR_PRIOR_VAL.store(if info.is_null() { -1 } else { unsafe { *((info as *const u8).add(24) as *const i32) as i64 } }, Ordering::SeqCst);
     let r = ANCHOR_ROUND.load(Ordering::SeqCst) as usize % 8;
     ANCHOR_PRIOR_AT[r].store(ANCHOR_SEQ.fetch_add(1, Ordering::SeqCst) + 1, Ordering::SeqCst);
     ANCHOR_PRIOR_SIG.store(if info.is_null() { -1 } else { unsafe { (*info).si_signo } } * 1000 + sig, Ordering::SeqCst);
@@ -1571,13 +1601,38 @@ fn anchor_case(prior_siginfo: bool, action_siginfo: bool, sig: c_int, rounds: u3
             }
         }
         for round in 0..rounds {
+            if round == 1 && [libc::SIGTSTP, libc::SIGTTIN, libc::SIGTTOU].contains(&sig) {
+                // the TUI suspend pattern: emulate the default action (the process stops), a helper
+                // continues it; the library's handler and the chained one must work as before
+                let me = unsafe { libc::getpid() };
+                let helper = unsafe { libc::fork() };
+                if helper == 0 {
+                    for _ in 0..4000 {
+                        let st = std::fs::read_to_string(format!("/proc/{}/stat", me)).unwrap_or_default();
+                        if st.rsplit(')').next().and_then(|r| r.split_whitespace().next()) == Some("T") {
+                            unsafe { libc::kill(me, libc::SIGCONT) };
+                            unsafe { libc::_exit(0) };
+                        }
+                        unsafe { libc::usleep(500) };
+                    }
+                    unsafe { libc::_exit(1) };
+                }
+                let _ = signal_hook::low_level::emulate_default_handler(sig);
+                let mut st = 0;
+                unsafe { libc::waitpid(helper, &mut st, 0) };
+                crate::forkrun::emit(fd, &json!({"k": "suspended-and-continued", "helper": libc::WEXITSTATUS(st)}));
+            }
             ANCHOR_ROUND.store(round, Ordering::SeqCst);
             let before = ANCHOR_SEQ.load(Ordering::SeqCst);
-            unsafe { libc::raise(sig) };
+            // a queued signal with a payload of its own, so that a record left over from an
+            // earlier delivery cannot pass for this one's
+            let payload = 0x1110 + round as i32;
+            unsafe { sigqueue(libc::getpid(), sig, libc::sigval { sival_ptr: payload as usize as *mut c_void }) };
             let after = ANCHOR_SEQ.load(Ordering::SeqCst);
             crate::forkrun::emit(
                 fd,
                 &json!({"k": "round", "calls": after - before, "prior_at": ANCHOR_PRIOR_AT[round as usize % 8].load(Ordering::SeqCst), "action_at": ANCHOR_ACTION_AT[round as usize % 8].load(Ordering::SeqCst),
+                    "payload": payload, "prior_val": ANCHOR_PRIOR_VAL.load(Ordering::SeqCst),
                     "prior_sig": ANCHOR_PRIOR_SIG.load(Ordering::SeqCst), "prior_info": ANCHOR_PRIOR_INFO.load(Ordering::SeqCst), "action_info": ANCHOR_ACTION_INFO.load(Ordering::SeqCst)}),
             );
         }
@@ -1589,6 +1644,13 @@ fn anchor_case(prior_siginfo: bool, action_siginfo: bool, sig: c_int, rounds: u3
     rep.nontrivial_by = vec![("C04".into(), true)];
     rep.hash = hash_of(&("anchor", prior_siginfo, action_siginfo, sig));
     rep.sample = Some(json!({"anchor": {"prior_siginfo": prior_siginfo, "action_siginfo": action_siginfo, "signal": sig}, "records": recs, "end": format!("{:?}", end)}));
+    if recs.iter().any(|r| r["k"] == "suspended-and-continued") {
+        rep.class("anchor-after-suspend");
+        if let crate::forkrun::End::Signaled(k) = end {
+            rep.viol("C04/args", format!("after one suspend/continue cycle through emulate_default_handler({}) the next delivery killed the process with signal {} inside the chained handler (it was handed something that is not the kernel's info)", sig, k));
+            return rep;
+        }
+    }
     if end != crate::forkrun::End::Exited(0) || !recs.iter().any(|r| r["k"] == "done") {
         rep.inconclusive = Some(format!("anchor probe ended {:?}", end));
         return rep;
@@ -1604,6 +1666,9 @@ fn anchor_case(prior_siginfo: bool, action_siginfo: bool, sig: c_int, rounds: u3
         if r["prior_sig"].as_i64() != Some(want) {
             rep.viol("C04/args", format!("real delivery of signal {}: the pre-existing handler saw signal/info {} (expected {})", sig, r["prior_sig"], want));
         }
+        if prior_siginfo && r["prior_val"] != r["payload"] {
+            rep.viol("C04/args", format!("real delivery of signal {} queued with payload {}: the pre-existing three-argument handler found payload {} in the info it was handed (not the kernel's record of this delivery)", sig, r["payload"], r["prior_val"]));
+        }
         if prior_siginfo && action_siginfo && r["prior_info"] != r["action_info"] {
             rep.viol("C04/args", format!("real delivery of signal {}: pre-existing handler and action received different info pointers", sig));
         }
@@ -1615,7 +1680,7 @@ fn c04_extra(def: &PropDef, _args: &WorkerArgs, report: &mut WorkerReport) {
     let known = Known::load();
     for ps in [false, true] {
         for asi in [false, true] {
-            for sig in [libc::SIGUSR1, libc::SIGHUP, 64] {
+            for sig in [libc::SIGUSR1, libc::SIGHUP, 64, libc::SIGTSTP] {
                 let rep = anchor_case(ps, asi, sig, 3);
                 if let Some(v) = report.absorb(def, &rep, &known) {
                     report.violation = Some((v.key, v.msg, json!({"anchor": [ps, asi, sig]})));
@@ -1649,3 +1714,116 @@ pub static C18: PropDef = PropDef {
     replay,
     extra: None,
 };
+
+use std::sync::atomic::AtomicBool;
+// ---- C01 / C02 real in-flight anchors: a delivery that really stays inside an action for a long
+// time (it blocks on a pipe) while another thread removes an action. The removal must not return
+// before the delivery is over, however long that takes - no simulated schedule can hold a delivery
+// for the ~10^6 spin rounds after which a "robust" barrier might give up.
+static INFLIGHT_IN: AtomicBool = AtomicBool::new(false);
+static INFLIGHT_RELEASE_FD: std::sync::atomic::AtomicI32 = std::sync::atomic::AtomicI32::new(-1);
+static INFLIGHT_VICTIM_RUNS: AtomicU32 = AtomicU32::new(0);
+static INFLIGHT_RETURNED: AtomicBool = AtomicBool::new(false);
+static INFLIGHT_VICTIM_AFTER_RETURN: AtomicBool = AtomicBool::new(false);
+
+/// variant 0: unregister(victim id), 1: unregister_signal, 2: unregister(id of the blocked action itself)
+fn inflight_anchor(variant: u8, hold_ms: u64) -> CaseReport {
+    let (recs, end) = crate::forkrun::fork_stream(15_000, move |fd| {
+        crate::vsched::install();
+        let sig = libc::SIGUSR1;
+        let mut p = [0i32; 2];
+        unsafe { libc::pipe(p.as_mut_ptr()) };
+        INFLIGHT_RELEASE_FD.store(p[0], Ordering::SeqCst);
+        let blocker = unsafe {
+            registry::register(sig, || {
+                INFLIGHT_IN.store(true, Ordering::SeqCst);
+                let mut b = [0u8; 1];
+                loop {
+                    let n = libc::read(INFLIGHT_RELEASE_FD.load(Ordering::SeqCst), b.as_mut_ptr() as *mut _, 1);
+                    if n == 1 || (n < 0 && *libc::__errno_location() != libc::EINTR) {
+                        break;
+                    }
+                }
+            })
+        };
+        let victim = unsafe {
+            registry::register(sig, || {
+                INFLIGHT_VICTIM_RUNS.fetch_add(1, Ordering::SeqCst);
+                if INFLIGHT_RETURNED.load(Ordering::SeqCst) {
+                    INFLIGHT_VICTIM_AFTER_RETURN.store(true, Ordering::SeqCst);
+                }
+            })
+        };
+        let (blocker, victim) = match (blocker, victim) {
+            (Ok(a), Ok(b)) => (a, b),
+            _ => {
+                crate::forkrun::emit(fd, &json!({"k": "infra"}));
+                return;
+            }
+        };
+        let deliverer = std::thread::spawn(move || unsafe {
+            libc::raise(sig);
+        });
+        while !INFLIGHT_IN.load(Ordering::SeqCst) {
+            std::thread::sleep(std::time::Duration::from_micros(100));
+        }
+        let remover = std::thread::spawn(move || {
+            let r = match variant % 3 {
+                0 => registry::unregister(victim),
+                #[allow(deprecated)]
+                1 => registry::unregister_signal(sig),
+                _ => registry::unregister(blocker),
+            };
+            INFLIGHT_RETURNED.store(true, Ordering::SeqCst);
+            r
+        });
+        std::thread::sleep(std::time::Duration::from_millis(hold_ms));
+        // the delivery is still inside the blocking action: has the removal come back already?
+        let early = INFLIGHT_RETURNED.load(Ordering::SeqCst);
+        let b = b"R";
+        unsafe { libc::write(p[1], b.as_ptr() as *const _, 1) };
+        let _ = deliverer.join();
+        let ret = remover.join().unwrap_or(false);
+        crate::forkrun::emit(
+            fd,
+            &json!({"k": "inflight", "returned_while_in_flight": early, "removal_ret": ret, "victim_runs": INFLIGHT_VICTIM_RUNS.load(Ordering::SeqCst), "victim_ran_after_removal_returned": INFLIGHT_VICTIM_AFTER_RETURN.load(Ordering::SeqCst)}),
+        );
+        crate::forkrun::emit(fd, &json!({"k": "done"}));
+    });
+    let mut rep = CaseReport::default();
+    rep.class("real-in-flight-anchor");
+    rep.nontrivial = true;
+    rep.nontrivial_by = vec![("C01".into(), true), ("C02".into(), true)];
+    rep.hash = hash_of(&("inflight", variant));
+    rep.sample = Some(json!({"inflight_anchor": {"variant": variant, "hold_ms": hold_ms}, "records": recs, "end": format!("{:?}", end)}));
+    if end != crate::forkrun::End::Exited(0) || !recs.iter().any(|r| r["k"] == "done") {
+        rep.inconclusive = Some(format!("in-flight anchor ended {:?}", end));
+        return rep;
+    }
+    if let Some(r) = recs.iter().find(|r| r["k"] == "inflight") {
+        let what = ["unregister(id of a later action of that delivery)", "unregister_signal", "unregister(id of the action that is running)"][variant as usize % 3];
+        if r["returned_while_in_flight"] == true {
+            rep.viol("C01/removal-returned-during-delivery", format!("{} returned while a delivery that began before it was still inside an action ({} ms in flight): the removed action may still be running or about to run", what, hold_ms));
+        }
+        if r["victim_ran_after_removal_returned"] == true {
+            rep.viol("C02/ran-after-removal-returned", format!("an action ran although its removal ({}) had already returned", what));
+            rep.viol("C01/ran-after-removal", format!("an action ran although its removal ({}) had already returned", what));
+        }
+        if r["removal_ret"] != true {
+            rep.viol("C05/ret@unregister", format!("{} of a registered action returned false", what));
+        }
+    }
+    rep
+}
+
+fn inflight_extra(def: &PropDef, args: &WorkerArgs, report: &mut WorkerReport) {
+    let known = Known::load();
+    let hold = if args.tier == Tier::Thorough { 3000 } else { 600 };
+    for variant in 0..3u8 {
+        let rep = inflight_anchor(variant, hold);
+        if let Some(v) = report.absorb(def, &rep, &known) {
+            report.violation = Some((v.key, v.msg, json!({"inflight_anchor": [variant, hold]})));
+            return;
+        }
+    }
+}
